@@ -28,7 +28,7 @@ PROPS = {
         "not_decided": "that the bytes reopen to the same state; that the right value is written; crash points inside an operation",
     },
     "C03": {
-        "rules": [rules_follow.make("R-MARK"), rules_follow.make("R-HDR", "C03"), rules_follow.make("R-BLANK"), rules_follow.make("R-INIT", "C03"), rules_own.make("C03"), rules_entry.gstore, rules_layout.run("C03"), rules_struct.cutoff, rules_struct.unit, rules_struct.freshid, rules_follow.make("R-FREEOLD", "C03"), rules_struct.hdrcount("C03"), rules_struct.parenttype("C03")],
+        "rules": [rules_follow.make("R-MARK"), rules_follow.make("R-HDR", "C03"), rules_follow.make("R-BLANK"), rules_follow.make("R-INIT", "C03"), rules_own.make("C03"), rules_entry.gstore, rules_layout.run("C03"), rules_struct.cutoff, rules_struct.unit, rules_struct.freshid, rules_follow.make("R-FREEOLD", "C03"), rules_struct.hdrcount("C03"), rules_struct.parenttype("C03"), rules_struct.initkind("C03")],
         "explanation": "Format-maintenance obligations visible as code shape: R-MARK (FAT/DIFAT sectors marked as such; allocated cell END_OF_CHAIN before use; freed cells FREE), R-HDR (header counts follow the chains), "
                        "R-BLANK (a removed entry's slot is overwritten with DirEntry::unallocated() on disk), R-GSTORE (no CLSID/timestamps on streams: every store to those fields is dominated by a test excluding ObjType::Stream; only storages are stamped at creation), R-OWN (allocation protocol: who may change FAT cells / free lists / initialise sectors), R-LAYOUT (symbolic walk of DirEntry::read_from/write_to and Header::read_from/write_to in control-flow order: same widths, counts and fields at the same offsets, totals 128 and 512, in-place patch offsets 68/72/76 and 40/44/60/64/68/72/76 equal the derived field offsets).",
         "not_decided": "single ownership of sectors, no orphans, chain length vs stream size, sibling-tree order and colouring: invariants over the contents of FAT and directory across histories",
@@ -57,13 +57,13 @@ PROPS = {
         "not_decided": "equality with a byte vector for all call sequences and buffer sizes (values of pos/cap/offset/total_len across histories); set_len near u64::MAX",
     },
     "C08": {
-        "rules": [rules_zero.run, rules_follow.make("R-INIT", "C08"), rules_io.poskeep],
+        "rules": [rules_zero.run, rules_follow.make("R-INIT", "C08"), rules_io.poskeep, rules_det.short],
         "explanation": "R-ZERO: in the function that stores a stream's new length (resize_stream, reached from Stream::set_len), a zero-fill event (a backend write whose data provenance is io::repeat(0) / [0; N], directly or in a direct helper) exists, is controlled only by the comparison new length > old length, and lies on every path from the 'grows' edge of that comparison to the length store (error exits excepted). "
                        "Alternatively accepted: zeroing on shrink in both chain kinds plus zeroing of newly allocated mini sectors. R-INIT: regular sectors are reset with the requested initialiser (SectorInit::Zero for stream data) on both the reuse and the append path of allocate_sector.",
         "not_decided": "that the bytes are zero and that the zero-filled range is exactly [old, new): values",
     },
     "C09": {
-        "rules": [rules_name.validname, rules_name.norm, rules_name.orient, rules_struct.unit, rules_struct.unlink("C09"), rules_struct.blankown("C09"), rules_api.errkind("C09")],
+        "rules": [rules_name.validname, rules_name.norm, rules_name.orient, rules_struct.unit, rules_struct.unlink("C09"), rules_struct.blankown("C09"), rules_struct.fold("C09"), rules_api.errkind("C09")],
         "explanation": "R-VALIDNAME (must-pass-through, interprocedural): from every DirEntry::new call with a non-constant name, walking up the call graph along the name argument to the public methods, some function validates the name (ok successor of validate_name on data derived from the same parameter dominates the forwarding call; a completed validation loop counts) and no state mutation precedes that validation on the chain. "
                        "R-NORM: every API method's path parameter reaches only name_chain_from_path (or formatting / forwarding to another API method), and lookups/inserts/removals take names derived from its result. "
                        "R-ORIENT: all compare_names sites agree on orientation (sought name first; Less -> left_sibling, Greater -> right_sibling in both the walk and the link update; validate rejects exactly != Less for (left,node) and (node,right)); no other comparator touches entry names in the directory layer. "
@@ -77,14 +77,14 @@ PROPS = {
         "not_decided": "bit-for-bit equality of state (follows from 'no effect ran' only given that effect-free code is effect-free, which the effect closure establishes for this crate); partial effects of the compound operations create_storage_all/remove_storage_all when a later step is refused by a callee",
     },
     "C11": {
-        "rules": [rules_sink.sink("mutation"), rules_sink.qual_rule("mutation"), rules_sink.term("mutation"), rules_sink.alloc("mutation"), rules_guard.make("R-INV"), rules_own.make("C11"), rules_follow.make("R-CTOR", "C11"), rules_struct.freelist],
+        "rules": [rules_sink.sink("mutation"), rules_sink.qual_rule("mutation"), rules_sink.term("mutation"), rules_sink.alloc("mutation"), rules_guard.make("R-INV"), rules_own.make("C11"), rules_follow.make("R-CTOR", "C11"), rules_struct.freelist, rules_entry.slotreset("C11")],
         "explanation": "Same engine as C05 on the mutation surface (every public method, dev profile so that debug assertions and overflow checks count as panics): R-TERM, R-SINK, R-QUAL, R-ALLOC, R-INV, R-CTOR, R-OWN. "
                        "Fields no validator covers (DirEntry.start_sector / stream_len, special FAT values) must reach index sites and raw walks only through the checked accessors or a dominating chain validation; the audit of the sink table found and led to repairs of five panics on damaged-but-accepted files, and records two more as known findings.",
         "not_decided": "as C05; behaviour of several handles on one stream (recorded as a known finding); resource exhaustion by caller-chosen sizes (set_len near u64::MAX)",
         "assumptions": ["audited sink entries (rules/sinks.json) record a human judgement made once by reading the code; the analysis re-checks only that their required guards still dominate the sink"],
     },
     "C12": {
-        "rules": [rules_io.errdisc(["io_read", "io_seek"], "read"), rules_io.window, rules_det.noerrafter("C12")],
+        "rules": [rules_io.errdisc(["io_read", "io_seek"], "read"), rules_io.window, rules_det.noerrafter("C12"), rules_det.seekfirst],
         "explanation": "R-ERRDISC(read): every call site whose callee transitively performs backend read/seek and returns io::Result is classified by what happens to the Result (?, returned, matched with an Err arm that returns Err; not dropped, .ok(), unwrap_or, is_ok). "
                        "R-WINDOW on error exits: after the buffer window offset moves, no error exit may leave the old window's bytes in place.",
         "not_decided": "that the bytes returned equal the fault-free run (values); behaviour of std's read_exact/read_to_end themselves",
@@ -97,20 +97,20 @@ PROPS = {
         "not_decided": "no panic/hang after a failed write on half-updated state (C11's question); that the flushed bytes are the accepted bytes (values)",
     },
     "C15": {
-        "rules": [rules_guard.make("R-REUSE.consult"), rules_follow.make("R-REUSE"), rules_guard.make("R-CAP"), rules_follow.make("R-FREEOLD", "C15"), rules_own.make("C15")],
+        "rules": [rules_guard.make("R-REUSE.consult"), rules_follow.make("R-REUSE"), rules_guard.make("R-CAP"), rules_follow.make("R-FREEOLD", "C15"), rules_own.make("C15"), rules_struct.killread("C15")],
         "explanation": "R-REUSE: (a) every append path of allocate_sector / allocate_mini_sector / allocate_dir_entry is dominated by the 'nothing free' outcome of the free-list query (guard atoms); (b) every free feeds the list (free_sector => set_fat(FREE) + free_sectors.push on all Ok paths; likewise mini sectors; free_chain frees each visited sector); (c) validate rebuilds both lists from exactly the FREE cells. "
                        "R-CAP: the branch guarding each extension of the mini-stream chain and of the MiniFAT chain has the chain's physical length (Chain::len / num_sectors) in its condition, not only the logical length that shrinks on release. R-FREEOLD: wherever a stream that already has a chain is moved to a freshly started chain (mini<->regular migration), and before a removed stream's entry goes away, the old chain is freed first on every path.",
         "not_decided": "that file size is constant from the second repetition of any net-zero cycle (values of the free lists over histories); LIFO order; truncation of the file (the code has none)",
     },
     "C16": {
-        "rules": [rules_mode.run],
+        "rules": [rules_mode.run, rules_struct.sibflag("C16")],
         "explanation": "R-MODE over all is_strict() tests (19 call sites): S - the region of the CFG dominated by the strict edge of each mode test contains no store, no mutating call and no Ok return, only refusals of kind InvalidData; "
                        "P/N - the region dominated by the permissive edge is either a listed normaliser that only pops/truncates its listed vector (DIFAT zero-stripping, FAT tail stripping, MiniFAT truncation) or a canonicalising assignment nested inside a documented deviation test; no refusal is made only in permissive mode. "
                        "Deviation inventory: each of the 18 documented deviations is located (regexes over guard atoms) as a refusal with is_strict() on its path (or, for the zero-padded FAT, an unconditional refusal pre-empted by the permissive normaliser).",
         "not_decided": "that the permissive view of a damaged file equals the undamaged file's content (values); deviations combined with foreign layouts",
     },
     "C17": {
-        "rules": [rules_follow.make("R-SETTER", "C17"), rules_entry.gstore, rules_det.narrow, rules_layout.run("C17"), rules_entry.moveall, rules_api.errkind("C17")],
+        "rules": [rules_follow.make("R-SETTER", "C17"), rules_entry.gstore, rules_det.narrow, rules_layout.run("C17"), rules_entry.moveall, rules_entry.getter("C17"), rules_api.errkind("C17")],
         "explanation": "R-SETTER: every metadata setter reaches with_dir_entry_mut on its Ok path, which forwards the same id down to Directory::with_dir_entry_mut, which writes the same slot back (write_dir_entry(same id) -> seek(128*id) + dir_entries[id].write_to). "
                        "R-GSTORE: streams never receive a CLSID or timestamps (every store to those fields is dominated by a test excluding ObjType::Stream). "
                        "R-NARROW: the FILETIME<->SystemTime conversion is total and saturating (no narrowing integer cast unless interval evaluation shows it fits, no unchecked SystemTime/Duration arithmetic, no unwrap of a fallible time operation). R-LAYOUT: the directory-entry serialiser and parser agree field for field (clsid, state bits, both timestamps at the same offsets and widths). R-ERRKIND rows: CLSID on a stream is InvalidInput, setters on a missing path are NotFound.",
